@@ -160,7 +160,15 @@ def c14_cases(ctx, binary, root, rnd, n):
                 sel[cat] = cased
             if unknown:
                 cat = rnd.choice(["opt", "vuln", "qa"])
-                sel[cat].insert(rnd.randrange(len(sel[cat]) + 1), rnd.choice(["no_such_pattern", "address_balances", "sstore2", "", "constructor order"]))
+                bad = rnd.choice(["no_such_pattern", "address_balances", "sstore2", "", "constructor order", "private_var_leading_underscore"])
+                if rnd.random() < 0.35:
+                    # every name of the category (in the documented order or shuffled), then the unknown one last / first
+                    full = list(allnames[cat])
+                    if rnd.random() < 0.5:
+                        rnd.shuffle(full)
+                    sel[cat] = full + [bad] if rnd.random() < 0.7 else [bad] + full
+                else:
+                    sel[cat].insert(rnd.randrange(len(sel[cat]) + 1), bad)
             tp = os.path.join(d, "alt") if toml_path_key else None
             lines = []
             if tp is not None:
